@@ -20,7 +20,7 @@ RULE = ('(a) sentences parsed by the real search with table grammars in which ev
         'format has no head field, its head direction); other nodes must be labelled unk. distinct = fingerprint of the case; '
         'non-trivial = the grammar offered >= 2 results for some node\'s children (a) / the tree has a binary node (b).')
 ASSUMPTIONS = SC.ASSUMPTIONS + ['reader trees are judged on the categories the reader produced (format spelling neutral)']
-REQUIRED_MONITORS = {'monitor:label-checked-among-several': 300, 'reader:binary-nodes-derivable': 300, 'reader:binary-nodes-underivable': 30,
+REQUIRED_MONITORS = {'reader:head-field-nodes': 500, 'monitor:label-checked-among-several': 300, 'reader:binary-nodes-derivable': 300, 'reader:binary-nodes-underivable': 30,
                      'reader:nltk-trees': 30}
 prepare = SC.prepare
 
@@ -97,13 +97,28 @@ def to_fake_nltk(tree):
     return FakeNltk(str(tree.cat), [to_fake_nltk(c) for c in tree.children])
 
 
-def judge(tree, ix, R, fmt, has_head_field, wit, path='root'):
+def judge(tree, ix, R, fmt, has_head_field, wit, path='root', src=None):
     if tree.is_leaf:
         return
+    if src is not None and (src.is_leaf or len(src.children) != len(tree.children)):
+        src = None                                   # shapes differ: another property's matter (C08/C15)
     for i, c in enumerate(tree.children):
-        judge(c, ix, R, fmt, has_head_field, wit, f'{path}/{i}')
+        judge(c, ix, R, fmt, has_head_field, wit, f'{path}/{i}', None if src is None else src.children[i])
     if tree.is_unary:
         return
+    if has_head_field and src is not None:
+        # a format with a head field: the flag on the tree is the file's field or the grammar's, never a third thing
+        try:
+            allowed = {bool(src.head_is_left)} | {bool(r.head_is_left) for r in ix.binary(tree.children[0].cat, tree.children[1].cat)
+                                                  if r.cat == tree.cat}
+        except Exception:
+            allowed = None
+        if allowed is not None:
+            R.count('reader:head-field-nodes')
+            if bool(tree.head_is_left) not in allowed:
+                R.violation('tree:head-flag-not-from-rule',
+                            f'{fmt} reader: {path}: node {tree.cat!s} has head_is_left={tree.head_is_left}; the file says '
+                            f'{bool(src.head_is_left)} and so does every rule deriving it', wit)
     try:
         cands = [r for r in ix.binary(tree.children[0].cat, tree.children[1].cat) if r.cat == tree.cat]
     except Exception:
@@ -190,8 +205,12 @@ def run_reader(spec, R):
                     R.count(f'reader:{fmt}-trees', len(read))
                     if mixed:
                         R.count(f'reader:mixed-reads-under-{active}')
-                    for rr in read:
-                        judge(rr.tree, aix, R, f'{fmt}[{active}]', has_head, dict(wit, format=fmt, active_language=active, text=text[:1200]))
+                    srcs = [st.tree for trees in work for st in trees]
+                    if len(srcs) != len(read):
+                        srcs = [None] * len(read)
+                    for rr, src_tree in zip(read, srcs):
+                        judge(rr.tree, aix, R, f'{fmt}[{active}]', has_head, dict(wit, format=fmt, active_language=active, text=text[:1200]),
+                              src=src_tree)
                 set_global_language_to(lang)
             for st in flat:
                 R.case(stable_hash(('nltk', treegen.tree_dump(st.tree))), len(st.tree.leaves) >= 2)
